@@ -26,6 +26,9 @@ Definition unw_triple (s : gst) : gtriple := match unw s with Some t => t | None
 Definition var_slc (v : var) : slc := {| sval := VWit v; wire := [(v, 1)]; oid := 0; good := good_var p v |}.
 Definition with_oid (x : slc) (o : Z) : slc := {| sval := sval x; wire := wire x; oid := o; good := good x |}.
 
+(* what [Emit] may append: constraints and observations (allocations and raises have their own primitives) *)
+Definition emittable (c : cmd) : bool := match c with CEmit _ _ _ | COut _ _ _ | COutLC _ _ => true | _ => false end.
+
 (* The generator monad is a FREE monad over the few primitive effects the library has, so that properties
    preserved by every primitive hold of every gadget and every program by one induction (Proofs/Frame.v).
    [lvl] separates the code that can only change the runtime globals inside a try/finally region ([Local]:
@@ -81,7 +84,11 @@ Fixpoint run {lvl A} (m : M lvl A) : gst -> (A + exn) * gst * list cmd :=
   | MPub h k => fun s => let v := npub s + 1 in
                match run (k (var_slc v)) (upd_counters s (npub s + 1) (npriv s) (noid s)) with (r, s', c) => (r, s', CAlloc Pub h :: c) end
   | Fresh k => fun s => run (k (noid s)) (upd_counters s (npub s) (npriv s) (noid s + 1))
-  | Emit c k => fun s => match run k s with (r, s', cs) => (r, s', c :: cs) end
+  | Emit c k => fun s =>
+      (* model-internal sanity check (pysnark has none): a constraint / observed wire may only mention allocated variables;
+         it makes well-scopedness of every generated command list a theorem (Proofs/Frame.v) and has never fired *)
+      if emittable c && cmd_scoped (npub s) (npriv s) c then match run k s with (r, s', cs) => (r, s', c :: cs) end
+      else (inr ModelError, s, [CRaiseIf BTrue ModelError (unw_triple s)])
   | RaiseIf b e k => fun s => match run k s with (r, s', cs) => (r, s', CRaiseIf b e (unw_triple s) :: cs) end
   | Local g i body k => fun s =>
       let s_in := upd_globals s (Some g) i g (match unw s with None => Some (cur_triple s) | Some u => Some u end) in
